@@ -4,12 +4,14 @@ import shutil
 import tempfile
 import warnings
 
+import numpy as np
 from hypothesis import strategies as st
 from lxml import etree
 
 from commonroad.common.file_reader import CommonRoadFileReader
 from commonroad.common.file_writer import CommonRoadFileWriter, OverwriteExistingFile
 from commonroad.common.util import FileFormat
+from commonroad.scenario.lanelet import Lanelet
 from commonroad.scenario_definition.protobuf_format.generated_scripts import commonroad_pb2
 
 from crverif.core import Facet, HarnessError, Violation
@@ -59,6 +61,14 @@ def do_write(w, kind, path, mode=OverwriteExistingFile.ALWAYS):
             w.write_scenario_to_file(path, mode)
 
 
+def edit(sc):
+    """The scenario a writer refers to is edited through the public API (the writer's input changes)."""
+    sc.translate_rotate(np.array([3.0, -2.0]), 0.0)
+    xs = [9000.0, 9010.0, 9020.0]
+    sc.lanelet_network.add_lanelet(Lanelet(np.array([[x, 2.0] for x in xs]), np.array([[x, 0.0] for x in xs]),
+                                           np.array([[x, -2.0] for x in xs]), 99990))
+
+
 def check(r, ctx):
     d = tempfile.mkdtemp(prefix="crverif-c15-")
     try:
@@ -68,16 +78,25 @@ def check(r, ctx):
             # ---- references, all computed before the history starts
             ref = {}
             n = 0
+            edited_scenarios = {op[1] % len(scen) for op in r["ops"] if op[0] == "edit"}
             for si, s in enumerate(r["scenarios"]):
                 for fmt in ("xml", "pb"):
                     for prec in r["precisions"]:
                         for kind in ("full", "scenario"):
+                            if si in edited_scenarios:
+                                sc, pps = gs.build_scenario(s), gs.build_pps(s["pps"])
+                                edit(sc)
+                                path = os.path.join(d, "ref%d.%s" % (n, fmt))
+                                n += 1
+                                do_write(make_writer(sc, pps, s, fmt, prec), kind, path)
+                                with open(path, "rb") as f:
+                                    ref[(si, fmt, prec, kind, True)] = normalise(f.read(), fmt)
                             sc, pps = gs.build_scenario(s), gs.build_pps(s["pps"])
                             path = os.path.join(d, "ref%d.%s" % (n, fmt))
                             n += 1
                             do_write(make_writer(sc, pps, s, fmt, prec), kind, path)
                             with open(path, "rb") as f:
-                                ref[(si, fmt, prec, kind)] = normalise(f.read(), fmt)
+                                ref[(si, fmt, prec, kind, False)] = normalise(f.read(), fmt)
                             if kind == "full":
                                 sc2, pps2 = CommonRoadFileReader(path, file_format=FORMATS[fmt]).open()
                                 tol = (lambda p, t=10.0 ** (-prec): t) if fmt == "xml" else (lambda p: 0)
@@ -88,7 +107,19 @@ def check(r, ctx):
             writers = []
             nfile = 0
             reused = interleaved = False
+            edited = set()
+            stale = False
             for op in r["ops"]:
+                if op[0] == "edit":
+                    si = op[1] % len(scen)
+                    if si not in edited:
+                        edit(scen[si][0])
+                        edited.add(si)
+                        if any(x["key"][0] == si and x["writes"] > 0 for x in writers):
+                            stale = True
+                            ctx.label("history-edits-scenario-of-a-used-writer")
+                        ctx.label("op-edit")
+                    continue
                 if op[0] == "new":
                     _, si, fmt, pi = op
                     si %= len(scen)
@@ -126,10 +157,12 @@ def check(r, ctx):
                 do_write(ww["w"], kind, path)
                 with open(path, "rb") as f:
                     got = normalise(f.read(), fmt)
-                exp = ref[(si, fmt, prec, kind)]
+                exp = ref[(si, fmt, prec, kind, si in edited)]
                 if got != exp:
                     others = any(x["key"][1:] != ww["key"][1:] for x in writers if x is not ww)
                     why = "reused-writer" if ww["writes"] > 0 else ("other-writer-constructed" if others else "first-use")
+                    if si in edited and got == ref[(si, fmt, prec, kind, False)]:
+                        why = "stale-after-scenario-edit"
                     raise Violation("content-differs-%s-%s" % (fmt, why), "write #%d of writer %d (%s, precision %d, "
                                     "%s): %d bytes, reference %d bytes; first difference at byte %d: %r vs %r" % (
                                         ww["writes"] + 1, wi, fmt, prec, kind, len(got), len(exp),
@@ -147,7 +180,7 @@ def check(r, ctx):
         ctx.label("history-reuses-a-writer")
     if interleaved:
         ctx.label("history-writes-after-other-writer-was-built")
-    if reused or interleaved:
+    if reused or interleaved or stale:
         ctx.nontrivial()
 
 
@@ -176,7 +209,8 @@ def s_history(draw, tier=None):
         st.tuples(st.sampled_from(["write", "write", "write", "overwrite"]), st.integers(0, 4),
                   st.sampled_from(["full", "scenario"])),
         st.tuples(st.just("skip"), st.integers(0, 4), st.sampled_from(["full", "scenario"]),
-                  st.lists(st.integers(0, 255), max_size=40)))
+                  st.lists(st.integers(0, 255), max_size=40)),
+        st.tuples(st.just("edit"), st.integers(0, 2)))
     first = draw(st.tuples(st.just("new"), st.integers(0, 2), st.sampled_from(["xml", "pb"]), st.integers(0, 2)))
     ops = [list(first)] + [list(o) for o in draw(st.lists(op, min_size=2, max_size=12))]
     return {"scenarios": scenarios, "precisions": precisions, "ops": ops}
@@ -185,7 +219,8 @@ def s_history(draw, tier=None):
 FACETS = [
     Facet("histories", check, strategy=s_history, quick=640, shards_quick=16, thorough=20000,
           rule="1-3 scenarios x 2-3 precisions from 1..12 x up to 5 writer objects (XML / protobuf); 3-13 operations "
-               "new / write_to_file / write_scenario_to_file / overwrite ALWAYS / SKIP onto arbitrary bytes; "
+               "new / write_to_file / write_scenario_to_file / overwrite ALWAYS / SKIP onto arbitrary bytes / edit of "
+               "the scenario (translation + added lanelet) between writes; "
                "non-trivial = a writer is used twice, or a writer writes after another writer with a different "
                "precision or format was constructed"),
 ]
